@@ -187,7 +187,8 @@ package cache
 //@   at call os.OpenFile#1: requires sameStr(name, my_name)
 //@   at call os.Stat#1: bind gStatErr = err
 //@   at call os.Open#1: bind gOpenRErr = err
-//@   at call os.OpenFile#1: requires flag == 66 || (flag == 578 && gStatErr == nil)
+//@   at call (os.FileInfo).Size#2: bind gSize2 = r
+//@   at call os.OpenFile#1: requires flag == 66 || (flag == 578 && gStatErr == nil && gSize2 > size)
 //@   at call (os.FileInfo).Size#1: bind gSize1 = r
 //@   at call os.OpenFile#1: requires !(gStatErr == nil && gSize1 == size && gOpenRErr == nil && out == out2)
 //@   ensures result != nil && gOpenErr == nil ==> gCleanup[gFile] || failBudget < old(failBudget)
